@@ -74,7 +74,7 @@ mod color_eyre { pub use super::Report; }
         invariant
             0 <= it.index@ <= input@.len(),
             bytes@ == le64(input@.len()) + frs_bytes(input@.subrange(0, it.index@)),
-//@afterstmt `bytes.extend_from_slice(&fr_to_bytes_le(el))`
+//@afterstmt `bytes.extend_from_slice(&fr_to_bytes_le`
         proof {
             let i = it.index@;
             assert(input@.subrange(0, i + 1) =~= input@.subrange(0, i).push(input@[i]));
